@@ -6,6 +6,8 @@ code. The shape facts the model relies on are re-extracted from the Python AST o
 (`Gen/Gate.lean`) and compared with `expectedGateShape` (`C07.tie_gate`).
 -/
 namespace Nima
+-- name tokens are compared by spelling in this file (see `NameCmp` in Model/Edit.lean)
+attribute [local instance] NameCmp.spelled
 
 /-- what the translator must find in the source for this model to be the code's -/
 def expectedGateShape : List (String × Bool) :=
